@@ -1,6 +1,7 @@
 package main
 
 import (
+	"bytes"
 	"fmt"
 
 	"github.com/rminnich/go9p/vs"
@@ -33,9 +34,11 @@ func c13ClientScenario(msize uint32, dotu bool, ncalls int) Scenario {
 					}
 					return avail
 				}
+				var kept []*callRes
 				for i := 0; i < ncalls; i++ {
 					sp := callSpec{[]string{"read", "stat", "write", "walk", "clunk"}[(i+shift)%5], uint32(10 + i)}
 					r := doCall(c, sp)
+					kept = append(kept, r)
 					if msg := r.verify("ok", dotu, nil); msg != "" {
 						bad = fmt.Sprintf("call %d (%s fid %d): %s", i, sp.Kind, sp.Fid, msg)
 						return
@@ -56,6 +59,14 @@ func c13ClientScenario(msize uint32, dotu bool, ncalls int) Scenario {
 					}
 					if msg := r.verify("ok", dotu, nil); msg != "" {
 						bad = fmt.Sprintf("concurrent call %d: %s", i, msg)
+						return
+					}
+				}
+				kept = append(kept, out...)
+				// payloads handed out earlier are not disturbed by the bytes that arrived later
+				for i, r := range kept {
+					if r.spec.Kind == "read" && !bytes.Equal(r.raw, r.data) {
+						bad = fmt.Sprintf("the data returned by call %d (read fid %d) was overwritten by reply bytes that arrived later: now %x, was %x", i, r.spec.Fid, r.raw, r.data)
 						return
 					}
 				}
